@@ -45,6 +45,10 @@ type Opts struct {
 	// Wrap puts the transport behind another kind of io.Reader before the library
 	// sees it (see Wraps); "" = as given.
 	Wrap string
+	// ExactRead: an unfragmented message is taken with one io.ReadFull of exactly Header.Length bytes and no
+	// further Read (how wsutil.ReadMessage and many applications consume a frame whose size they know): the
+	// Reader never gets to report the end of that message.
+	ExactRead bool
 }
 
 // Wraps are the kinds of source an application may hand to the readers: what
@@ -253,6 +257,16 @@ func Run(src io.Reader, o Opts) (obs Obs) {
 					obs.Err = err
 					return
 				}
+				ord++
+				continue
+			}
+			if o.ExactRead && h.Fin && h.OpCode != ws.OpContinuation {
+				p := make([]byte, h.Length)
+				if _, err := io.ReadFull(rd, p); err != nil {
+					obs.Err, obs.Partial, obs.PartialOp, obs.InMessage = err, nil, byte(h.OpCode), true
+					return
+				}
+				obs.Events = append(obs.Events, ref.Event{Kind: "msg", Op: byte(h.OpCode), Payload: p})
 				ord++
 				continue
 			}
